@@ -69,7 +69,7 @@ class Cx:
         os.makedirs(d)
         return d
 
-    def _run(self, ops, timeout, fl="asan", raw=False, alarm=4):
+    def _run(self, ops, timeout, fl="asan", raw=False, alarm=3):
         # a reader running away on garbage must not eat the machine: cap the resident set
         env = build.tool_env(self.b[fl])
         env["ASAN_OPTIONS"] += ":hard_rss_limit_mb=2000"
@@ -489,6 +489,54 @@ def renamed(base, prefix, lib):
     return d
 
 
+def history_run(cx, A, dataB, idn, good, order):
+    """history of two loads: the intact library A and a second file (library 'libz')
+    that is well-formed (good=True), must be rejected (False) or has a mismatching
+    identifier (None); order AB | BA | lazy (both requested before the first query)"""
+    B = renamed(A, "Z", "libz")
+    dataA = idb.write(A)
+    EA = (idb.load_defaults(A), (A["library_name"], A["library_hash_name"], A["module_name"]))
+    EB = (idb.load_defaults(B), (B["library_name"], B["library_hash_name"], B["module_name"]))
+    isA = lambda r: r["lib"] == A["library_name"]
+    isB = lambda r: r["lib"] == B["library_name"]
+    d = cx.dir()
+    pa, pb = os.path.join(d, "a.in"), os.path.join(d, "b.in")
+    open(pa, "wb").write(dataA)
+    open(pb, "wb").write(dataB)
+    ops = ["load:" + pa, "sync", "load:%s:%d" % (pb, idn), "sync", "dump"]
+    if order == "BA":
+        ops = ["load:%s:%d" % (pb, idn), "sync", "load:" + pa, "sync", "dump"]
+    if order == "lazy":
+        ops = ["load:" + pa, "load:%s:%d" % (pb, idn), "sync", "dump"]
+    r, v = cx._run(ops, 60)
+    os.unlink(pa)
+    os.unlink(pb)
+    pp = proc_problem(r)
+    if pp:
+        return "crash", "%s; %s" % (pp, (r.err or "")[-500:])
+    dump = v[-1]
+    why = compare_loaded(EA[0], EA[1], dump, only=isA)
+    if why:
+        return "A-damaged", "the intact library: " + why
+    nB = sum(1 for k in idb.KINDS for r in dump[k].values() if not isA(r))
+    if nB:
+        whyB = compare_loaded(idb.load_defaults(idb.parse(dataB)) if good or good is None else EB[0],
+                              EB[1], dump, only=isB)
+    else:
+        whyB = "nothing of it loaded"
+    if good:
+        if dump["error"]:
+            return "flag-on-good", "error flag set by a well-formed 3.x file"
+        return ("both-loaded", None) if not whyB else ("B-differs", "the second library: " + whyB)
+    if not dump["error"]:
+        return "no-flag", "the bad file did not set the error flag"
+    if nB == 0:
+        return "flag+A-only", None
+    if good is None and not whyB:
+        return "flag+both-complete", None
+    return "half-merged", "%d records of the rejected file are in the database" % nB
+
+
 # ------------------------------------------------------------------------ main
 def main():
     ck = Check(PID)
@@ -598,7 +646,7 @@ def main():
                                          "the %d-byte prefix of a %d-byte file" % (n, len(data)))
                 return False, o, prob
 
-            def run_range(lo, hi, src=src, pdir=pdir, judge=judge, alarm=4):
+            def run_range(lo, hi, src=src, pdir=pdir, judge=judge, alarm=3):
                 """-> {n: (complete, outcome, problem)}"""
                 r = cx._run(["prefixes:%s:%s:%d:%d" % (src, pdir, lo, hi)], 60 + (alarm + 2) * (hi - lo),
                             raw=True, alarm=alarm)
@@ -698,11 +746,6 @@ def main():
     if want("history") and not ck.expired():
         A = base
         B = renamed(base, "Z", "libz")
-        dataA = idb.write(A)
-        EA = (idb.load_defaults(A), (A["library_name"], A["library_hash_name"], A["module_name"]))
-        EB = (idb.load_defaults(B), (B["library_name"], B["library_hash_name"], B["module_name"]))
-        isA = lambda r: r["lib"] == A["library_name"]
-        isB = lambda r: r["lib"] == B["library_name"]
         hj = []
         goodB = idb.write(B)
         cuts = sorted(set([0, 1, 5, 12, 40] + [len(goodB) * k // 23 for k in range(1, 23)] + [len(goodB) - 3]))
@@ -719,47 +762,14 @@ def main():
         def history_job(j):
             (label, dataB, idn, good), order = j
             key = "history/%s/%s" % (order, label)
-
-            def run():
-                d = cx.dir()
-                pa, pb = os.path.join(d, "a.in"), os.path.join(d, "b.in")
-                open(pa, "wb").write(dataA)
-                open(pb, "wb").write(dataB)
-                ops = ["load:" + pa, "sync", "load:%s:%d" % (pb, idn), "sync", "dump"]
-                if order == "BA":
-                    ops = ["load:%s:%d" % (pb, idn), "sync", "load:" + pa, "sync", "dump"]
-                if order == "lazy":
-                    ops = ["load:" + pa, "load:%s:%d" % (pb, idn), "sync", "dump"]
-                r, v = cx._run(ops, 60)
-                os.unlink(pa)
-                os.unlink(pb)
-                pp = proc_problem(r)
-                if pp:
-                    return "crash", "%s; %s" % (pp, (r.err or "")[-500:])
-                dump = v[-1]
-                why = compare_loaded(EA[0], EA[1], dump, only=isA)
-                if why:
-                    return "A-damaged", "the intact library: " + why
-                nB = sum(1 for k in idb.KINDS for r in dump[k].values() if not isA(r))
-                whyB = compare_loaded(idb.load_defaults(idb.parse(dataB)) if good or good is None else EB[0], EB[1], dump, only=isB) \
-                    if nB else "nothing of it loaded"
-                if good:
-                    if dump["error"]:
-                        return "flag-on-good", "error flag set by a well-formed 3.x file"
-                    return ("both-loaded", None) if not whyB else ("B-differs", "the second library: " + whyB)
-                if not dump["error"]:
-                    return "no-flag", "the bad file did not set the error flag"
-                if nB == 0:
-                    return "flag+A-only", None
-                if good is None and not whyB:
-                    return "flag+both-complete", None
-                return "half-merged", "%d records of the rejected file are in the database" % nB
+            run = lambda: history_run(cx, base, dataB, idn, good, order)
             outcome, prob = run()
             ck.note(key, nontrivial=True, outcome=outcome, family="history",
                     sample={"order": order, "second_file": label, "bytes": len(dataB)})
             if prob:
                 fail_file(key, "history %s with %s: %s" % (order, label, prob), dataB, outcome,
-                          lambda: run()[1] is not None, {"mode": "history"})
+                          lambda: run()[1] is not None,
+                          {"mode": "history", "order": order, "ident": idn, "good": good})
         pmap(history_job, [(j, o) for j in hj for o in ("AB", "BA", "lazy")])
 
     ck.extra["loads"] = cx.loads
@@ -817,11 +827,16 @@ def replay(cx):
             outcome, prob = ("loaded", None) if not sync["error"] else ("flag", "error flag set")
             print("records loaded:", {k: len(dump[k]) for k in idb.KINDS})
         else:
-            outcome, prob = judge_rejected(sync, dump, "the file")
-            if outcome == "half-merged" and d.get("expect") == "mismatch":
-                outcome, prob = "flag+loaded", None
+            full = None
+            if d.get("expect") == "mismatch":
+                M = idb.parse(data)
+                full = (idb.load_defaults(M), (M["library_name"], M["library_hash_name"], M["module_name"]))
+            outcome, prob = judge_rejected(sync, dump, "the file", full=full)
+    elif mode == "history":
+        outcome, prob = history_run(cx, lib_c20.synthetic_db(), data, d.get("ident", 0), d.get("good"),
+                                    d.get("order", "AB"))
     else:
-        print("history cases are replayed by re-running ./check C12 --only history")
+        print("unknown replay mode", mode)
         cx.ck.cleanup()
         return 1
     print("observed now:", outcome, "|", prob)
